@@ -428,7 +428,12 @@ class Nodes:
         elif typ is str:
             wrapped_value = PlainScalarString(value)
         elif typ is int:
-            wrapped_value = ScalarInt(value)
+            try:
+                wrapped_value = ScalarInt(value)
+            except ValueError:
+                # Text which only literal_eval reads as an integer (0x1F,
+                # 0o17, (1), - 5) remains text, as make_new_node has it
+                wrapped_value = PlainScalarString(value)
         elif typ is float:
             wrapped_value = Nodes.make_float_node(ast_value)
         elif typ is bool:
